@@ -152,6 +152,21 @@ def execute (req : Req) (pol : Option Policy) (outcome : Nat → Res) (us : Nat 
     let out := doQuery req pol outcome us fuel ids k cnt cons
     ⟨out, out.attempts, decide (out.final = .last .logical)⟩
 
+/-- the statement's context ends right after the attempt of request `x` — in `SelectedHost.Mark`, between the
+    attempt and the retry decision (`kx = some x`): `do` never looks at the context itself; the policy is consulted
+    as usual, and the attempt it licenses returns `ctx.Err()` from `Conn.exec` before anything is written (counted,
+    observed, no request) and ends the loop. In the model: every request numbered above `x` "answers" with the
+    context's error, and only the attempts numbered up to `x` reached a server. -/
+def executeX (req : Req) (pol : Option Policy) (outcome : Nat → Res) (us : Nat → Nat → Bool) (fuel : Nat)
+    (ids : List Nat) (k cnt cons : Nat) (ctxDone : Bool) (kx : Option Nat) : Run :=
+  match kx with
+  | none => execute req pol outcome us fuel ids k cnt cons ctxDone
+  | some x =>
+    if ctxDone then execute req pol outcome us fuel ids k cnt cons true
+    else
+      let out := doQuery req pol (fun n => if n > x then .logical else outcome n) us fuel ids k cnt cons
+      ⟨out, out.attempts.take (x + 1 - k), decide (out.final = .last .logical) || decide (k + out.attempts.length > x)⟩
+
 /-! ### a scripted environment: hosts whose usability is changed between attempts -/
 
 /-- a host of the scenario with what `do` looks at -/
@@ -229,6 +244,144 @@ def downgradingPolicyL (levels : List Nat) : Policy :=
 /-- the same with only the number of levels known (the decisions do not depend on the level values) -/
 def downgradingPolicy (levels : Nat) : Policy :=
   { attempt := fun n => decide (n ≤ levels), rtype := downgradingRType }
+
+/-! ### the error values the retry policies are handed (errors.go) and the built-in policies' `GetRetryType` on them -/
+
+/-- `RequestErrWriteTimeout.WriteType` (a string on the wire; `other` = any string not listed) -/
+inductive WriteType where
+  | simple | batch | counter | unloggedBatch | batchLog | cas | view | cdc | other
+deriving DecidableEq, Repr
+
+/-- an `error` as `GetRetryType(err)` sees it through its type switch -/
+inductive ReqErr where
+  | unavailable (required alive : Nat)                       -- *RequestErrUnavailable
+  | writeTimeout (wt : WriteType) (received blockFor : Nat)  -- *RequestErrWriteTimeout
+  | readTimeout (received blockFor : Nat) (dataPresent : Bool) -- *RequestErrReadTimeout
+  | other                                                    -- every other error value (also a WRAPPED timeout error:
+                                                             -- the switch is on the dynamic type, not errors.As)
+deriving DecidableEq, Repr
+
+/-- `DowngradingConsistencyRetryPolicy.GetRetryType` (policies.go), branch by branch -/
+def downgradingGetRetryType : ReqErr → RT
+  | .unavailable _ alive => if alive > 0 then .retry else .rethrow
+  | .writeTimeout wt received _ =>
+      if wt = .simple ∨ wt = .batch ∨ wt = .counter then (if received > 0 then .ignore else .rethrow)
+      else if wt = .unloggedBatch then .retry
+      else .rethrow
+  | .readTimeout _ _ _ => .retry
+  | .other => .nextHost
+
+/-- `SimpleRetryPolicy.GetRetryType` / `ExponentialBackoffRetryPolicy.GetRetryType` -/
+def simpleGetRetryType : ReqErr → RT := fun _ => .nextHost
+
+/-- the abstract error kind the executor model (`doLoop`, `Policy.rtype`) files an error value under -/
+def kindOf : ReqErr → Nat
+  | .unavailable _ alive => if alive > 0 then kUnavailableAlive else kUnavailableNone
+  | .writeTimeout wt received _ =>
+      if wt = .simple ∨ wt = .batch ∨ wt = .counter then (if received > 0 then kWriteTOSimpleRecv else kWriteTOSimpleNone)
+      else if wt = .unloggedBatch then kWriteTOUnlogged
+      else kWriteTOOther
+  | .readTimeout _ _ _ => kReadTO
+  | .other => 9
+
+/-- `Attempt(q)` of the three built-in policies as a function of `q.Attempts()`: the answer and the consistency
+    it sets on the statement (`none`: untouched) -/
+def simpleAttempt (numRetries attempts : Nat) : Bool × Option Nat := (decide (attempts ≤ numRetries), none)
+
+def downgradingAttempt (levels : List Nat) (attempts : Nat) : Bool × Option Nat :=
+  if attempts > levels.length then (false, none)
+  else if attempts > 0 then (true, levels[attempts - 1]?)
+  else (true, none)
+
+/-! ### `queryMetrics` (session.go): what `Attempts()`, `Latency()` and the observers' `Metrics` are computed from -/
+
+/-- `hostMetrics` of one host (`queryMetrics.m[host]`) -/
+structure HostM where
+  host : Nat
+  attempts : Nat
+  total : Nat         -- TotalLatency, nanoseconds
+deriving DecidableEq, Repr
+
+structure QM where
+  totalAttempts : Nat := 0
+  m : List HostM := []        -- the map, as an association list (one entry per host, created on first use)
+deriving DecidableEq, Repr
+
+/-- `hostMetricsLocked(host)` (get or create) followed by `Attempts += 1; TotalLatency += lat` -/
+def bumpHost : List HostM → Nat → Nat → List HostM
+  | [], h, lat => [⟨h, 1, lat⟩]
+  | x :: xs, h, lat => if x.host = h then ⟨h, x.attempts + 1, x.total + lat⟩ :: xs else x :: bumpHost xs h lat
+
+def hostAtt : List HostM → Nat → Nat
+  | [], _ => 0
+  | x :: xs, h => if x.host = h then x.attempts else hostAtt xs h
+
+def hostTot : List HostM → Nat → Nat
+  | [], _ => 0
+  | x :: xs, h => if x.host = h then x.total else hostTot xs h
+
+/-- what one attempt hands to the observer: its number (`Attempt`), and the host's `Metrics` after it -/
+structure ObsM where
+  idx : Nat
+  hostAttempts : Nat
+  hostTotal : Nat
+deriving DecidableEq, Repr
+
+/-- `queryMetrics.attempt(1, latency, host, true)` -/
+def QM.attempt (q : QM) (h lat : Nat) : QM × ObsM :=
+  let m' := bumpHost q.m h lat
+  (⟨q.totalAttempts + 1, m'⟩, ⟨q.totalAttempts, hostAtt m' h, hostTot m' h⟩)
+
+/-- `queryMetrics.latency()`: total latency over all hosts / attempts over all hosts (integer division), 0 before
+    the first attempt -/
+def QM.latency (q : QM) : Nat :=
+  let a := (q.m.map (·.attempts)).sum
+  let l := (q.m.map (·.total)).sum
+  if a > 0 then l / a else 0
+
+/-- the statement's metrics after the attempts `hist` (host, latency of each, in order), with the observer records -/
+def QM.run : QM → List (Nat × Nat) → QM × List ObsM
+  | q, [] => (q, [])
+  | q, (h, lat) :: rest =>
+      let (q1, o) := q.attempt h lat
+      let (q2, os) := q1.run rest
+      (q2, o :: os)
+
+namespace Spec
+/-- the documented meaning, from the history alone: the i-th attempt is number i; the host's `Metrics.Attempts` is
+    the number of attempts made on that host so far, `Metrics.TotalLatency` the sum of their latencies;
+    `Latency()` is the average latency of all attempts; `Attempts()` their number -/
+def obsAt (hist : List (Nat × Nat)) (i : Nat) : ObsM :=
+  let upto := hist.take (i + 1)
+  let h := (hist.getD i (0, 0)).1
+  ⟨i, (upto.filter (·.1 == h)).length, ((upto.filter (·.1 == h)).map (·.2)).sum⟩
+
+def avgLatency (hist : List (Nat × Nat)) : Nat :=
+  if hist.length > 0 then (hist.map (·.2)).sum / hist.length else 0
+end Spec
+
+namespace Spec
+/-- The DOCUMENTED decisions of DowngradingConsistencyRetryPolicy (the doc comment above the type in policies.go;
+    `none` = the text does not say):
+    * "On a read timeout: the operation is retried with the next provided consistency level."
+    * "On a write timeout: if the operation is an UNLOGGED_BATCH and at least one replica acknowledged the write,
+       the operation is retried with the next consistency level. Furthermore, for other write types, if at least
+       one replica acknowledged the write, the timeout is ignored."  — the "other write types" are read as the
+       ordinary writes SIMPLE / BATCH / COUNTER (as in the drivers the text comes from); for BATCH_LOG, CAS, VIEW,
+       CDC the text is taken to say nothing; a write timeout that no replica acknowledged is neither retried nor
+       ignored: it goes back to the caller.
+    * "On an unavailable exception: if at least one replica is alive, the operation is retried with the next
+       provided consistency level." — otherwise it goes back to the caller. -/
+def downgradingDoc : ReqErr → Option RT
+  | .readTimeout _ _ _ => some .retry
+  | .writeTimeout .unloggedBatch received _ => some (if received > 0 then .retry else .rethrow)
+  | .writeTimeout .simple received _ => some (if received > 0 then .ignore else .rethrow)
+  | .writeTimeout .batch received _ => some (if received > 0 then .ignore else .rethrow)
+  | .writeTimeout .counter received _ => some (if received > 0 then .ignore else .rethrow)
+  | .writeTimeout _ _ _ => none
+  | .unavailable _ alive => some (if alive > 0 then .retry else .rethrow)
+  | .other => none
+end Spec
 
 /-! ### which policy / observer a statement carries (session.go: `Session.Query`, `Session.NewBatch`, the
     deprecated package-level `NewBatch`) -/
